@@ -299,6 +299,9 @@ func runHist(c fw.Case, p params, rec *fw.Recorder) {
 			u = 0
 		}
 		switch k := r.Intn(1000); {
+		case k >= 738 && k < 760:
+			// a configuration that is executed but never committed, then a send (discard.go)
+			x.discarded(u, t, p.Users, focus)
 		case k < 760:
 			x.lastID = 0
 			x.send(u, t, x.genAmount(u, t))
@@ -397,10 +400,16 @@ func runEdges(c fw.Case, p params, rec *fw.Recorder) {
 	L := periodLen(period)
 	limits := []*big.Int{bi(1000), new(big.Int).Add(p2(80), bi(12345))}
 	x.setTax(t, bi(1), bi(8), "0.125", map[int]bool{})
-	for _, limit := range limits {
+	for li, limit := range limits {
 		x.setLimit(t, limit, period, map[int]bool{2: true})
 		fills := []*big.Int{bi(1), new(big.Int).Quo(limit, bi(2)), new(big.Int).Sub(limit, bi(1)), limit}
-		for _, off := range []int64{0, 1, L - 2, L - 1, L, L + 1, 2*L - 1, 2 * L} {
+		for oi, off := range []int64{0, 1, L - 2, L - 1, L, L + 1, 2*L - 1, 2 * L} {
+			if oi == 4 {
+				// second half of the offsets: after a limit configuration that was executed but never
+				// committed (three times the limit, another period, the plain sender exempt)
+				x.n++
+				x.discardLimit(t, limCfg{set: true, limit: new(big.Int).Mul(limit, bi(3)), period: period%4 + 1, exempt: map[int]bool{0: true}}, hows[li%len(hows)])
+			}
 			for _, fill := range fills {
 				for sec := 0; sec < 5; sec++ {
 					for _, u := range []int{0, 2} {
@@ -491,6 +500,16 @@ func runTaxGrid(c fw.Case, p params, rec *fw.Recorder) {
 		}
 		for ti, t := range e.m.toks {
 			x.setTax(t, rt.num, rt.den, rt.str, map[int]bool{1: true})
+			if ti == (ri/2)%2 && !x.stop {
+				// every other (rate, token): the grid runs after a tax configuration that was executed
+				// but never committed (another rate of the grid, exemption flipped for both senders)
+				d := rates[(ri+5)%len(rates)]
+				if sameRatio(d.num, d.den, rt.num, rt.den) {
+					d = rate{bi(1), bi(2), "1/2"}
+				}
+				x.n++
+				x.discardTax(t, taxCfg{set: true, num: d.num, den: d.den, rateStr: d.str, exempt: map[int]bool{0: true}}, hows[(ri/2)%len(hows)])
+			}
 			if x.stop {
 				return
 			}
@@ -588,6 +607,7 @@ func init() {
 			"3-5 users, 2-4 tokens (one with supply 2^256-1), heights walking through window edges (start+L-2 .. start+L+1) of all four periods, amounts around remaining allowance / limit / balance / tax rounding boundaries / up to 2^256-1; " +
 			"edges-*: enumeration period x offset-from-window-start x first fill x second amount x sender kind; taxgrid-*: enumeration rate notation x amount boundary x exemption with cancel; " +
 			"flow: ABCI mode with real governance, signed txs, end-blocker batch and validator claims. " +
+			"all kinds: tax / limit configurations that are EXECUTED BUT NEVER COMMITTED (handler in a dropped state branch; proposal whose later message fails; proposal submitted / voted down / failed) chosen so that the next sender would be treated differently, followed by sends judged by the committed configuration. " +
 			"distinct_nontrivial = distinct (rate, amount, exemption, limited, period, offset in window, verdict) tuples of sends on tokens with a tax > 0 or an active limit, plus enumerated combinations; " +
 			"evaluations = oracle comparisons (per send: cost/lock/record/limit; per cancel: refund; per batch: burn; per keeper probe: accept/reject+record)",
 		Assumptions: []string{
@@ -595,13 +615,15 @@ func init() {
 			"L: daily 57 600 blocks, weekly x7, monthly x30, yearly x365",
 			"when a limit is re-configured the running window (start, total) carries over and is judged with the new period and limit",
 			"cancelled transfers still count as accepted transfers of their window",
+			"the configuration of a token is what the last PASSED governance content set; a content executed in a state branch that is dropped (gov runs legacy contents on a cache context at submission; a proposal whose later message fails; a proposal voted down) configures nothing",
 			"direct mode emulates baseapp message atomicity with a cache context (chain.Direct); the flow case re-checks rejected sends through the real baseapp",
 			"a send whose intermediate product amount*numerator exceeds 256 bits is rejected by a recovered panic in the real code; counted (sends_rejected_intermediate_overflow), not judged",
 		},
-		Exhaustive:  func(string) bool { return false },
-		Cases:       cases,
-		Run:         run,
-		MinCounters: []string{"sends_accepted_taxed", "sends_accepted_tax_rounded", "sends_accepted_tax_exempt_or_untaxed", "cancels_with_tax", "batches_executed", "transfers_executed_with_tax", "sends_rejected_limit", "window_rollovers_at_exact_edge", "accepts_in_last_block_of_window", "window_filled_exactly", "keeper_probe_rejects", "sends_accepted_unrestricted", "flow_claims_observed"},
-		TimeoutS:    1500,
+		Exhaustive: func(string) bool { return false },
+		Cases:      cases,
+		Run:        run,
+		MinCounters: []string{"sends_accepted_taxed", "sends_accepted_tax_rounded", "sends_accepted_tax_exempt_or_untaxed", "cancels_with_tax", "batches_executed", "transfers_executed_with_tax", "sends_rejected_limit", "window_rollovers_at_exact_edge", "accepts_in_last_block_of_window", "window_filled_exactly", "keeper_probe_rejects", "sends_accepted_unrestricted", "flow_claims_observed",
+			"sends_after_discarded_tax_config", "sends_after_discarded_limit_config", "flow_gov_proposals_not_passed"},
+		TimeoutS: 1500,
 	})
 }
